@@ -134,7 +134,7 @@ def WFTok : Tok → Prop
   | .comment b => '-' ∉ b
   | .start n as _ => WFName n ∧ ∀ a ∈ as, WFAttr a
   | .close n => WFName n
-  | .chars t => t ≠ [] ∧ ∀ x ∈ t, textChar x = true
+  | .chars t => t ≠ [] ∧ validText t = true
 
 instance (t : Tok) : Decidable (WFTok t) := by cases t <;> unfold WFTok <;> infer_instance
 
@@ -151,9 +151,42 @@ theorem tagEnd_head (as : List (Str × Str)) (sc : Bool) (rest : Str) :
   | nil => cases sc <;> simp [renderAttrs, nameChar_facts]
   | cons a as => obtain ⟨k, v⟩ := a; exact ⟨' ', _, rfl, nameChar_facts.2.2.1⟩
 
-theorem textChar_not_lt {c : Char} (h : textChar c = true) : (c != '<') = true := by
-  simp only [textChar, Bool.and_eq_true] at h
-  exact h.1.1.2
+theorem validTextAux_no_lt : ∀ (t : Str) (st : Option Str), validTextAux st t = true → ∀ c ∈ t, (c != '<') = true
+  | [], _, _ => by simp
+  | c :: r, none, h => by
+    simp only [validTextAux] at h
+    intro x hx
+    rcases List.mem_cons.mp hx with rfl | hx
+    · split at h
+      · rename_i hc; subst hc; decide
+      · simp only [Bool.and_eq_true] at h; exact h.1.1.2
+    · split at h
+      · exact validTextAux_no_lt r _ h x hx
+      · simp only [Bool.and_eq_true] at h; exact validTextAux_no_lt r _ h.2 x hx
+  | c :: r, some n, h => by
+    simp only [validTextAux] at h
+    intro x hx
+    rcases List.mem_cons.mp hx with rfl | hx
+    · split at h
+      · rename_i hc; subst hc; decide
+      · simp only [Bool.and_eq_true] at h
+        have := h.1
+        by_cases e : x = '<'
+        · subst e; exact absurd this (by decide)
+        · simpa using e
+    · split at h
+      · simp only [Bool.and_eq_true] at h; exact validTextAux_no_lt r _ h.2 x hx
+      · simp only [Bool.and_eq_true] at h; exact validTextAux_no_lt r _ h.2 x hx
+
+/-- text without `&` (and the other excluded characters) is valid character data -/
+theorem validText_of_textChars : ∀ (t : Str), (∀ c ∈ t, textChar c = true) → validText t = true
+  | [], _ => rfl
+  | c :: r, h => by
+    have hc := h c (by simp)
+    simp only [textChar, Bool.and_eq_true, bne_iff_ne, ne_eq] at hc
+    have ih := validText_of_textChars r (fun x hx => h x (by simp [hx]))
+    simp only [validText, validTextAux, if_neg hc.1.2, Bool.and_eq_true, bne_iff_ne, ne_eq] at ih ⊢
+    exact ⟨⟨⟨hc.1.1.1, hc.1.1.2⟩, hc.2⟩, ih⟩
 
 theorem nextTok_render (t : Tok) (rest : Str) (hw : WFTok t) (hf : Follows t rest) :
     nextTok (renderTok t ++ rest) = .tok t rest := by
@@ -208,9 +241,9 @@ theorem nextTok_render (t : Tok) (rest : Str) (hw : WFTok t) (hf : Follows t res
     cases txt with
     | nil => exact absurd rfl hne
     | cons c tl =>
-      have hc := textChar_not_lt (hall c (by simp))
+      have hp : ∀ x ∈ c :: tl, (fun y => y != '<') x = true := validTextAux_no_lt _ _ hall
+      have hc := hp c (by simp)
       have hc' : c ≠ '<' := by simpa using hc
-      have hp : ∀ x ∈ c :: tl, (fun y => y != '<') x = true := fun x hx => textChar_not_lt (hall x hx)
       have htd : ((c :: tl) ++ rest).takeWhile (fun y => y != '<') = c :: tl ∧
           ((c :: tl) ++ rest).dropWhile (fun y => y != '<') = rest := by
         rcases hf rfl with rfl | hh
@@ -229,8 +262,7 @@ theorem nextTok_render (t : Tok) (rest : Str) (hw : WFTok t) (hf : Follows t res
       · rename_i r heq; simp only [List.cons_append, List.cons.injEq] at heq; exact absurd heq.1 hc'
       · rename_i c' r' _ heq
         rw [← heq, htd.1, htd.2]
-        simp only [List.all_eq_true]
-        rw [if_pos (fun x hx => hall x hx)]
+        rw [if_pos hall]
 
 /-! ### token sequences read back -/
 
